@@ -292,7 +292,7 @@ def do_replay(prop, path):
     os.makedirs(wd, exist_ok=True)
     if rep["case"].get("t") == "trace":
         import tracejobs
-        rejs = tracejobs.replay(rep["case"], wd)
+        rejs = tracejobs.replay_history(rep["case"], wd) if rep["case"].get("history") else tracejobs.replay(rep["case"], wd)
         for r in rejs:
             print("REPRODUCED property=%s kind=trace-rejected at line %d, model at %s" % (prop, r["at"], r["model"][:200]))
         if rejs:
